@@ -14,7 +14,7 @@ PID = "C19"
 RULE = (
     "complete product grid family/dimension/periodicity x modes 0..4 x width {None, 0.0, 1.3} x refine x threshold rule {0.5, auto, mean, otsu} "
     "x image catalogue {empty, one droplet, two droplets, droplet + single-cell speck}; non-trivial = at least one droplet located"
-    "; prelude histories (amplitude-less / many-mode / other-dimension droplets constructed first, fresh fork); thorough: further grids of every family, modes to 6, worker processes"
+    "; prelude histories (amplitude-less / many-mode / other-dimension droplets constructed first, or a perturbed-shape request on a grid of each of five families made first; fresh fork); thorough: further grids of every family, modes to 6, worker processes"
 )
 ASSUMPTIONS = [
     "images are rendered diffuse droplets (width 1 cell) on 9-16 cell grids; class/layout clauses do not depend on the image beyond the droplet count",
@@ -62,13 +62,25 @@ def blocks(tier, seed):
 
 
 PRELUDES = ["amplitude-less-instances", "many-mode-instances", "other-dimension"]
+# earlier REQUESTS in the same process: a perturbed-shape analysis on a grid of each family (every ordered pair family -> request)
+REQUEST_PRELUDES = {
+    "request:cart2": {"kind": "cart", "shape": [12, 12], "dx": [1.0, 1.0], "origin": [0.0, 0.0], "periodic": [True, False]},
+    "request:cart3": {"kind": "cart", "shape": [9, 9, 9], "dx": [1.0, 1.0, 1.0], "origin": [0.0, 0.0, 0.0], "periodic": [False, True, False]},
+    "request:polar": {"kind": "polar", "n": 12, "R": 12.0},
+    "request:sph": {"kind": "sph", "n": 12, "R": 12.0},
+    "request:cyl": {"kind": "cyl", "shape": [8, 16], "R": 8.0, "z": [0.0, 16.0], "periodic_z": False},
+}
 
 
 def prelude(name):
     """what a caller may have done earlier in the same process (e.g. to draw a test image): construct droplets of the same classes"""
     from droplets.droplets import DiffuseDroplet, PerturbedDroplet2D, PerturbedDroplet3D, PerturbedDroplet3DAxisSym, SphericalDroplet
 
-    if name == "amplitude-less-instances":
+    if name in REQUEST_PRELUDES:
+        from droplets import locate_droplets
+
+        locate_droplets(field_for(REQUEST_PRELUDES[name], "one")[1], modes=3, interface_width=0.7)
+    elif name == "amplitude-less-instances":
         PerturbedDroplet2D(np.zeros(2), 1.0)
         PerturbedDroplet3D(np.zeros(3), 1.0)
         PerturbedDroplet3DAxisSym(np.zeros(3), 1.0)
@@ -89,8 +101,8 @@ def cases(block):
     thorough = block.get("tier") == "thorough"
     if not block["refine"]:
         # histories: the same request after other droplets were constructed in the process (fresh fork each)
-        for pre in PRELUDES:
-            for w in (None, 1.3):
+        for pre in PRELUDES + list(REQUEST_PRELUDES):
+            for w in ((None, 1.3) if pre in PRELUDES else (None,)):
                 yield {"grid": block["grid"], "modes": block["modes"], "refine": False, "width": w, "rule": 0.5, "image": "two", "prelude": pre}
     for w in (WIDTHS + [0.4] if thorough else WIDTHS):
         for rule in (RULES + ["extrema", 0.3] if thorough else RULES):
